@@ -4,6 +4,7 @@ import PwVerif.Model.CacheForest
 import PwVerif.Model.CacheFetchTree
 import PwVerif.Model.CacheCmp
 import PwVerif.Model.CacheSer
+import PwVerif.Model.CacheGate
 import PwVerif.Model.Proto
 open PwVerif.Cache PwVerif.Proto
 open PwVerif.CacheTree (T Src K KidK KCfg Sem St)
@@ -32,6 +33,8 @@ structure DSt where
   prop : St String
   forest : Root String
   forestP : Root String          -- … where a child run by hand drops the root's record (proposed)
+  gc : PwVerif.CacheGate.N       -- readiness gate / use_cache switch histories, node under test
+  gu : PwVerif.CacheGate.N       -- …, cache-free twin
   zc : PwVerif.CacheSer.N        -- serialized-result histories, cached
   zu : PwVerif.CacheSer.N        -- …, cache-free twin
   fetch : PwVerif.CacheFetchTree.St String
@@ -43,6 +46,7 @@ structure DSt where
 def St0 : St String := { vals := [], kids := [], outs := [], cache := none }
 def DSt.init : DSt :=
   { beh := [], rc := N.init, ru := N.init, sc := N.init, su := N.init, nc := N.init, nu := N.init, hc := N.init, hu := N.init, cur := St0, prop := St0, forest := { kids := [], cache := none }, forestP := { kids := [], cache := none },
+    gc := PwVerif.CacheGate.N.init true, gu := PwVerif.CacheGate.N.init false,
     zc := PwVerif.CacheSer.N.init, zu := PwVerif.CacheSer.N.init, fetch := { body := [], cache := none }, vsame := [], vdesc := [],
     vc := PwVerif.CacheCmp.St.init, vp := PwVerif.CacheCmp.St.init }
 
@@ -183,16 +187,25 @@ def forestRun (s : DSt) : DSt × List String :=
   ({ s with forest := f1, forestP := f2 }, [l1, l2])
 
 /-- child `l` of the root is run by hand (outside a run of the graph) -/
-def forestHand (s : DSt) (l : Nat) : DSt × List String :=
+def forestHand (s : DSt) (path : List Nat) (l : Nat) : DSt × List String :=
   let one := fun (tag : String) (clear : Bool) (r : Root String) =>
-    match PwVerif.CacheForest.stepC strSem KCfg.proposed FUEL r (.handRun l clear) with
+    let op : PwVerif.CacheForest.Op String := if path.isEmpty then .handRun l clear else .handRunAt path l clear
+    match PwVerif.CacheForest.stepC strSem KCfg.proposed FUEL r op with
     | some (r', _) =>
       let calls := (executed r.kids r'.kids).foldr insertSorted []
-      (r', s!"{tag} hand {l} out={PwVerif.CacheForest.outAt strSem l r'.kids} calls={",".intercalate calls}")
+      (r', s!"{tag} hand {l} calls={",".intercalate calls}")
     | none => (r, s!"{tag} none")
   let (f1, l1) := one "F" false s.forest
   let (f2, l2) := one "FP" true s.forestP
   ({ s with forest := f1, forestP := f2 }, [l1, l2])
+
+def gApply (s : DSt) (op : PwVerif.CacheGate.Op) : DSt × List String :=
+  let (gc, r1) := PwVerif.CacheGate.step true true false s.gc op
+  let (gu, r2) := PwVerif.CacheGate.step true true true s.gu op
+  let sh := fun (r : PwVerif.CacheGate.R) => match r with
+    | .ret none => "ret:ND" | .ret (some v) => s!"ret:F({v})" | .readiness => "readiness" | .refused => "refused" | .unit => "unit"
+  let so := fun (n : PwVerif.CacheGate.N) => match n.out with | none => "ND" | some v => s!"F({v})"
+  ({ s with gc, gu }, [s!"G c={sh r1} u={sh r2} oc={so gc} ou={so gu}"])
 
 def showZR : PwVerif.CacheSer.R → String
   | .ret none => "ret:ND" | .ret (some v) => s!"ret:F({v})" | .future => "future" | .readiness => "readiness"
@@ -315,9 +328,18 @@ def step' (s : DSt) (ws : List String) : DSt × List String :=
       | _ => (s, ["bad-op"])
     | _, _, _ => (s, ["bad-op"])
   | ["trun"] => treeRun s
-  | ["thandrun", l] => match l.toNat? with
-    | some l => forestHand s l
+  | ["thandrun", p, l] => match parsePath p, l.toNat? with
+    | some p, some l => forestHand s p l
+    | _, _ => (s, ["bad-op"])
+  | "gset" :: [v] => match v.toNat? with
+    | some v => gApply s (.set v)
     | none => (s, ["bad-op"])
+  | ["grun"] => gApply s .run
+  | ["gexec"] => gApply s .execute
+  | ["glaxon"] => gApply s .laxOn
+  | ["glaxoff"] => gApply s .laxOff
+  | ["gcacheon"] => gApply s .cacheOn
+  | ["gcacheoff"] => gApply s .cacheOff
   | ["zset", v] => match v.toNat? with
     | some v => zApply s (.set v)
     | none => (s, ["bad-op"])
